@@ -23,8 +23,13 @@ fn interim_reason(rng: &mut Rng) -> &'static str {
 
 fn case(rng: &mut Rng, idx: u64, rec: &mut Rec) {
     // request
-    let method = *rng.pick(&["POST", "PUT", "PATCH", "POST"]);
+    let method = *rng.pick(&["POST", "PUT", "PATCH", "POST", "GET", "DELETE"]);
     let mut cfg = ReqCfg::new(method, "http://h.test/upload");
+    if !needs_body(method) {
+        // a body forced onto a body-less method: the handshake must work the same
+        cfg.despite = true;
+        cfg.despite_twice = rng.chance(1, 4);
+    }
     if method == "POST" && rng.chance(1, 3) {
         cfg.ver = Ver::V10;
     }
